@@ -2,27 +2,50 @@ import time, vf
 PID = "C02"
 def main(tier, args):
     t0 = time.time()
-    exe = vf.build("C02/timers", [vf.VERIF + "/checks/C02/harness.cpp"], vf.module_sources("event", "eventx/timer_pool.cpp"), mode="asan",
-                   plain_srcs=[vf.VERIF + "/engine/sched/log_stub.cpp"])
-    dt, dp, dl, np = (5, 5, 80, 4) if tier == "quick" else (7, 7, 1300, 8)
+    # eventx/timer_pool.cpp is #included by the harness (to read TimerPool::Impl's cabinet for the state key), so it is not linked separately
+    srcs = vf.module_sources("event")
+    stub = [vf.VERIF + "/engine/sched/log_stub.cpp"]
+    exe = vf.build("C02/timers", [vf.VERIF + "/checks/C02/harness.cpp"], srcs, mode="asan", plain_srcs=stub)
+    # second build as C++14: TimerPool::doAfter has a separate "#if __cplusplus >= 201402L" branch (move-captured callback)
+    exe14 = vf.build("C02/timers14", [vf.VERIF + "/checks/C02/harness.cpp"], srcs, mode="asan", extra_flags=["-std=c++14"], plain_srcs=stub)
+    quick = tier == "quick"
+    dt, dp, dl, np = (5, 5, 240, 4) if quick else (7, 7, 1300, 8)       # dl: per-process real-time deadline (s); the harness virtualises the clock only while code under test runs, so the deadline is effective
+    d_reinit = 6 if quick else 7        # configuration 3 (2 timers, every initialize() variant)
+    d_sleep = 5 if quick else 6         # configuration 4 (exitLoop(T) + runLoop(kForever), simulated sleep)
     res = vf.Result(); log = open(vf.BUILD + "/C02/log.txt", "w")
     jobs = []
     for e in ("epoll", "select"):
-        for cfg in (0, 1, 2):
-            d = dt if (cfg == 0 or tier != "quick") else dt - 1       # quick: the 4-timer configurations one level shallower
+        for cfg in (0, 1, 2, 3, 4):
+            d = {0: dt, 1: dt if not quick else dt - 1, 2: dt if not quick else dt - 1, 3: d_reinit, 4: d_sleep}[cfg]      # quick: the 4-timer configurations one level shallower
             for p in range(np):
                 jobs.append(("timer:%s:cfg%d:p%d" % (e, cfg, p), [exe, "timer", e, str(d), str(cfg), str(p), str(np)]))
         # heap lane: every insertion order of 6 (quick) / 6,7,8 (thorough) one-shot timers x every single removal
         jobs.append(("heap:%s:n6" % e, [exe, "heap", e, "6", "0", "1"]))
         for p in range(4): jobs.append(("heap:%s:n7:p%d" % (e, p), [exe, "heap", e, "7", str(p), "4"]))
-        if tier != "quick":
+        if not quick:
             for p in range(8): jobs.append(("heap:%s:n8:p%d" % (e, p), [exe, "heap", e, "8", str(p), "8"]))
+        # heap lane B: persistent timers, removal at tick k (top level / inside a callback), re-insert; epoll with de-pooled, select with pooled timer records
+        pooled = "1" if e == "select" else "0"
+        for p in range(4): jobs.append(("heapb:%s:n6:p%d" % (e, p), [exe, "heapb", e, "6", str(p), "4", pooled]))
+        if not quick:
+            for p in range(16): jobs.append(("heapb:%s:n7:p%d" % (e, p), [exe, "heapb", e, "7", str(p), "16", pooled]))
+        dpool = dp if not quick else dp - 1
         for p in range(np):
-            jobs.append(("pool:%s:p%d" % (e, p), [exe, "pool", e, str(dp if tier != "quick" else dp - 1), "0", str(p), str(np)]))
+            jobs.append(("pool:%s:p%d" % (e, p), [exe, "pool", e, str(dpool), "0", str(p), str(np)]))
+            if e == "epoll": jobs.append(("pool14:%s:p%d" % (e, p), [exe14, "pool", e, str(dpool), "0", str(p), str(np)], {"C02_POOLED": "1"}))
     if args.only: jobs = [j for j in jobs if j[0] == args.only]
     vf.run_procs(res, jobs, env={"VERIF_DEADLINE_S": str(dl)}, log=log)
     vf.finish(PID, tier, res, t0,
-              rule="BFS over all histories (depth %d; 4-timer configurations and pool one less in the quick tier) of enable/disable/destroy/reinit/advance(0,1,2,3,7 ms)+loop-pass on 3-4 real TimerEvents (persistent and one-shot, intervals 1-5 ms, equal deadlines included) "
-                   "with callback scripts that disable/destroy/enable/restart another timer or themselves, and (depth %d) of doEvery/doAfter/cancel/cleanup/advance on the real TimerPool with callbacks that cancel, clean up and add timers; "
-                   "plus a heap lane: every enable order of 6 and 7 (thorough also 8) one-shot timers with distinct deadlines x every single disable/destroy, 1 ms steps; virtual monotonic clock; both back-ends; reference = per-timer deadline model checked inside every callback (not early, deadline order, enabled, alive) and after every pass (nothing due left unfired); ASan with the timer record pool de-pooled" % (dt, dp),
-              assumptions=["timers with equal deadlines may fire in either order (DESIGN 1.7)", "clock reads are interposed at clock_gettime (libstdc++ steady_clock)"])
+              rule="BFS over all histories (depth %d; 4-timer configurations and pool one less in the quick tier) of enable/disable/destroy/reinit/advance(0,1,2,3,7 ms)+loop-pass/tick(3 ms, clock moves without a pass so the next op meets overdue timers) on 3-4 real TimerEvents (persistent and one-shot, intervals 1-5 ms, equal deadlines included) "
+                   "with one callback script out of: disable/destroy/enable/restart another timer or itself, the same after a slow callback (clock +2 ms inside the pass), initialize() with unchanged parameters on itself/another timer with or without a following enable (or two of the plain scripts on two timers); "
+                   "configuration 3 (depth %d): 2 timers with initialize(same parameters | other interval | other mode) at top level and in callbacks, mode is per-run model state; "
+                   "configuration 4 (depth %d, timer records pooled): 3 timers with exitLoop(T in 1,4,7 ms)+runLoop(kForever) where epoll_wait/select are interposed so that the time-out the loop asks for elapses exactly on the virtual clock (a -1 time-out while a timer or the exit timer is pending, or returning before T, is a violation), callbacks may also call exitLoop(2 ms) once; "
+                   "(depth %d) doEvery/doAfter/doAt/cancel/cleanup/advance/tick on the real TimerPool with callbacks that cancel, clean up and add timers (also after a slow callback), built twice: C++11 with de-pooled timer records (both back-ends) and C++14 (the other doAfter branch) with pooled records (epoll); "
+                   "heap lane: every enable order of 6 and 7 (thorough also 8) one-shot timers with distinct deadlines x every single disable/destroy, 1 ms steps; "
+                   "heap lane B: every enable order of 6 (thorough also 7) persistent timers with intervals 1..n, 1 ms steps, at tick k in 1..n one victim is disabled (and enabled again two ticks later) or destroyed, at top level or inside another timer's callback during the scan, k+n+3 passes; "
+                   "virtual monotonic clock; both back-ends; reference = per-timer deadline model (deadline = clock at enable + interval, += interval per firing) checked inside every callback (not early, deadline order, enabled, alive) and after every pass (nothing due at the time the pass woke up is left unfired); "
+                   "state key = model + the loop's timer heap in array order + timer cabinet cell/free-list shape (+ TimerPool's own cabinet shape, id counter and number of cleanups); ASan" % (dt, d_reinit, d_sleep, dp),
+              assumptions=["timers with equal deadlines may fire in either order (DESIGN 1.7)", "clock reads are interposed at clock_gettime (libstdc++ steady_clock)",
+                           "run-for lane: the back-end's sleep is exact (time-out T>0 advances the clock by T, a sub-millisecond select time-out counts as 1 ms, 8 consecutive zero time-outs as 1 ms); lateness is not judged, only early / never / skipped",
+                           "a timer that becomes due because a callback of the same pass was slow need not fire in that pass (due is judged against the clock at wake-up)",
+                           "raw CommonLoop::addTimer with repeat >= 2 is not driven (TimerEvent only issues 0 and 1)"])
